@@ -162,7 +162,10 @@ macro_rules! bytes_table {
             fn take(&mut self, _k: &<$T as Mappable>::Key) -> Result<Option<<$T as Mappable>::OwnedValue>, Infallible> { unimplemented!() }
         }
         impl StorageSize<$T> for SlotStorage {
-            fn size_of_value(&self, _k: &<$T as Mappable>::Key) -> Result<Option<usize>, Infallible> { unimplemented!() }
+            fn size_of_value(&self, k: &<$T as Mappable>::Key) -> Result<Option<usize>, Infallible> {
+                for s in self.$field.iter() { if let Some((kk, v)) = s { if kk == k { return Ok(Some(v.len())) } } }
+                Ok(None)
+            }
         }
         impl StorageRead<$T> for SlotStorage {
             fn read_exact(&self, _k: &<$T as Mappable>::Key, _o: usize, _b: &mut [u8]) -> Result<Result<usize, fuel_storage::StorageReadError>, Infallible> { unimplemented!() }
